@@ -82,8 +82,17 @@ class Group:
         self.gid = gid
         self.ops = []       # impl cases (dicts for impl_pkt), each with a private key '_k' describing the kind
         self.nomodel = False  # True: the declarations are outside the modelled language: implementation-only (oracle) group
+        self.local = False    # True: every class is declared inside a function (not reachable by name: prototypes of such
+                              # classes cannot be pickled and are cloned from the live object instead)
 
     def blocks(self):
+        if self.local:
+            out = []
+            for c, pc in sorted(self.table.items()):
+                n = decl.cname(c)
+                body = "".join("    " + l + "\n" for l in decl.py_class(c, pc).rstrip("\n").split("\n"))
+                out.append(dict(name=n, src=f"def _mk_{n}():\n{body}    return {n}\n{n} = _mk_{n}()\n"))
+            return out
         return [dict(name=decl.cname(c), src=decl.py_class(c, pc)) for c, pc in sorted(self.table.items())]
 
     def add_derive(self, c, value, seed, offsets=(), maxcuts=16, flips=3, record=False, cut_with_prefix=False):
